@@ -277,7 +277,7 @@ func (c *Ctx) pkgNorm(suffix string) *nctx {
 			}
 		}
 	}
-	n := newNctx(decls)
+	n := newNctx(decls).withConsts(pkg.Syntax)
 	c.normPkg[suffix] = n
 	return n
 }
@@ -291,7 +291,7 @@ func (c *Ctx) vnorm(v *variants.Variant) *nctx {
 	if n, ok := c.normPkg[key]; ok {
 		return n
 	}
-	n := newNctx(v.Funcs())
+	n := newNctx(v.Funcs()).withConsts([]*ast.File{v.File})
 	c.normPkg[key] = n
 	return n
 }
